@@ -23,6 +23,7 @@
 #ifndef JANET_AMALG
 #include "features.h"
 #include <janet.h>
+#include <math.h>
 #include "state.h"
 #include "vector.h"
 #include "gc.h"
@@ -478,7 +479,8 @@ static void marshal_one(MarshalState *st, Janet x, int flags) {
             return;
         case JANET_NUMBER: {
             double xval = janet_unwrap_number(x);
-            if (janet_checkintrange(xval)) {
+            /* The integer form cannot hold the sign of -0.0 */
+            if (janet_checkintrange(xval) && !(xval == 0 && signbit(xval))) {
                 pushint(st, (int32_t) xval);
                 return;
             }
